@@ -47,8 +47,8 @@ theorem evalC_tie {c1 c2 : Cond} (h : normC c1 = normC c2) (A : Arrays) (σ : En
 theorem hash_full_bridge (pre init : List Stmt) (cond : Cond) (post body after : List Stmt)
     (T : RegLoopTies pre init cond post body after GoModel.loop_Hash.pre GoModel.loop_Hash.init GoModel.loop_Hash.cond
       GoModel.loop_Hash.post GoModel.loop_Hash.body GoModel.loop_Hash.after)
-    (o : Option Bytes) (hw : WFB (o.getD [])) (hl : (o.getD []).length < 4611686018427387904) (ρ : Env) :
-    callWhile (hashArrsO o) pre init cond post body after ((o.getD []).length + 1) ρ = Hash.hash (o.getD []) := by
+    (o : Option Bytes) (hw : WFB (o.getD [])) (hl : (o.getD []).length < 4611686018427387904) (ρ : Env) (e : Nat) :
+    callWhile (hashArrsO o) pre init cond post body after ((o.getD []).length + 1 + e) ρ = Hash.hash (o.getD []) := by
   generalize hA : hashArrsO o = A
   have hlen : (A 0).length = (o.getD []).length := by subst hA; simp [hashArrsO]
   have ePre : ∀ σ, runEnv A σ pre = runEnv A σ GoModel.loop_Hash.pre := fun σ => (normStmts_eq T.pre A σ).1
@@ -66,7 +66,7 @@ theorem hash_full_bridge (pre init : List Stmt) (cond : Cond) (post body after :
       rw [sameVars_eq T.body A σ 1 (by simp), sameVars_eq T.body A σ 3 (by simp)]
       simp [GoModel.loop_Hash.body, runEnv, upd])
     (fun σ v => by rw [eAfter, eAfter]; simp [GoModel.loop_Hash.after, runRet, eval, upd])
-    hl
+    hl e
   rw [glue]
   have r2 : runEnv A (runEnv A ρ pre) init 2 = 4294967295 := by
     rw [eInit, ePre]; simp [GoModel.loop_Hash.pre, GoModel.loop_Hash.init, runEnv, eval, upd]
@@ -87,8 +87,8 @@ theorem hash_full_bridge (pre init : List Stmt) (cond : Cond) (post body after :
 theorem hash64_full_bridge (pre init : List Stmt) (cond : Cond) (post body after : List Stmt)
     (T : RegLoopTies pre init cond post body after GoModel.loop_Hash64.pre GoModel.loop_Hash64.init GoModel.loop_Hash64.cond
       GoModel.loop_Hash64.post GoModel.loop_Hash64.body GoModel.loop_Hash64.after)
-    (o : Option Bytes) (hw : WFB (o.getD [])) (hl : (o.getD []).length < 4611686018427387904) (ρ : Env) :
-    callWhile (hashArrsO o) pre init cond post body after ((o.getD []).length + 1) ρ = Hash.hash64 (o.getD []) := by
+    (o : Option Bytes) (hw : WFB (o.getD [])) (hl : (o.getD []).length < 4611686018427387904) (ρ : Env) (e : Nat) :
+    callWhile (hashArrsO o) pre init cond post body after ((o.getD []).length + 1 + e) ρ = Hash.hash64 (o.getD []) := by
   generalize hA : hashArrsO o = A
   have hlen : (A 0).length = (o.getD []).length := by subst hA; simp [hashArrsO]
   have ePre : ∀ σ, runEnv A σ pre = runEnv A σ GoModel.loop_Hash64.pre := fun σ => (normStmts_eq T.pre A σ).1
@@ -106,7 +106,7 @@ theorem hash64_full_bridge (pre init : List Stmt) (cond : Cond) (post body after
       rw [sameVars_eq T.body A σ 1 (by simp), sameVars_eq T.body A σ 3 (by simp)]
       simp [GoModel.loop_Hash64.body, runEnv, upd])
     (fun σ v => by rw [eAfter, eAfter]; simp [GoModel.loop_Hash64.after, runRet, eval, upd])
-    hl
+    hl e
   rw [glue]
   have r2 : runEnv A (runEnv A ρ pre) init 2 = 18446744073709551615 := by
     rw [eInit, ePre]; simp [GoModel.loop_Hash64.pre, GoModel.loop_Hash64.init, runEnv, eval, upd]
@@ -127,8 +127,8 @@ theorem hash64_full_bridge (pre init : List Stmt) (cond : Cond) (post body after
 theorem hash64v2_full_bridge (pre init : List Stmt) (cond : Cond) (post body after : List Stmt)
     (T : RegLoopTies pre init cond post body after GoModel.loop_Hash64v2.pre GoModel.loop_Hash64v2.init
       GoModel.loop_Hash64v2.cond GoModel.loop_Hash64v2.post GoModel.loop_Hash64v2.body GoModel.loop_Hash64v2.after)
-    (o : Option Bytes) (hw : WFB (o.getD [])) (hl : (o.getD []).length < 4611686018427387904) (ρ : Env) :
-    callWhile (hashArrsO o) pre init cond post body after ((o.getD []).length + 1) ρ = Hash.hash64v2 o := by
+    (o : Option Bytes) (hw : WFB (o.getD [])) (hl : (o.getD []).length < 4611686018427387904) (ρ : Env) (e : Nat) :
+    callWhile (hashArrsO o) pre init cond post body after ((o.getD []).length + 1 + e) ρ = Hash.hash64v2 o := by
   cases o with
   | none =>
     unfold callWhile
@@ -155,7 +155,7 @@ theorem hash64v2_full_bridge (pre init : List Stmt) (cond : Cond) (post body aft
         rw [sameVars_eq T.body A σ 1 (by simp), sameVars_eq T.body A σ 3 (by simp)]
         simp [GoModel.loop_Hash64v2.body, runEnv, upd])
       (fun σ v => by rw [eAfter, eAfter]; simp [GoModel.loop_Hash64v2.after, runRet, eval, upd])
-      hl
+      hl e
     rw [glue]
     have r2 : runEnv A (runEnv A ρ pre) init 2 = 18446744073709551615 := by
       rw [eInit, ePre]; simp [GoModel.loop_Hash64v2.pre, GoModel.loop_Hash64v2.init, runEnv, eval, evalC, upd, hnil]
@@ -169,8 +169,8 @@ theorem hash64v2_full_bridge (pre init : List Stmt) (cond : Cond) (post body aft
 theorem hash64V2_full_bridge (pre init : List Stmt) (cond : Cond) (post body after : List Stmt)
     (T : RegLoopTies pre init cond post body after GoModel.loop_Hash64V2.pre GoModel.loop_Hash64V2.init
       GoModel.loop_Hash64V2.cond GoModel.loop_Hash64V2.post GoModel.loop_Hash64V2.body GoModel.loop_Hash64V2.after)
-    (o : Option Bytes) (hw : WFB (o.getD [])) (hl : (o.getD []).length < 4611686018427387904) (ρ : Env) :
-    callWhile (hashArrsO o) pre init cond post body after ((o.getD []).length + 1) ρ = Hash.hash64V2 o := by
+    (o : Option Bytes) (hw : WFB (o.getD [])) (hl : (o.getD []).length < 4611686018427387904) (ρ : Env) (e : Nat) :
+    callWhile (hashArrsO o) pre init cond post body after ((o.getD []).length + 1 + e) ρ = Hash.hash64V2 o := by
   by_cases hemp : (o.getD []) = []
   · -- nil or empty: the guard returns 0
     unfold callWhile
@@ -220,8 +220,8 @@ theorem hashCode_full_bridge (pre init : List Stmt) (cond : Cond) (post body aft
     (hpost : normStmts post = normStmts GoModel.loop_HashCode.post)
     (hbody : sameVars [2, 1] body GoModel.loop_HashCode.body = true)
     (hafter : canonRet after = canonRet GoModel.loop_HashCode.after)
-    (bs : Bytes) (hw : WFB bs) (hl : bs.length < 4611686018427387904) (ρ : Env) :
-    callWhile (strArrs bs) pre init cond post body after (bs.length + 1) ρ = StrHash.hashCode bs := by
+    (bs : Bytes) (hw : WFB bs) (hl : bs.length < 4611686018427387904) (ρ : Env) (e : Nat) :
+    callWhile (strArrs bs) pre init cond post body after (bs.length + 1 + e) ρ = StrHash.hashCode bs := by
   generalize hA : strArrs bs = A
   have hlen : (A 0).length = bs.length := by subst hA; simp [strArrs]
   have eInit : ∀ σ, runEnv A σ init = runEnv A σ GoModel.loop_HashCode.init := fun σ => (normStmts_eq hinit A σ).1
@@ -236,7 +236,7 @@ theorem hashCode_full_bridge (pre init : List Stmt) (cond : Cond) (post body aft
     (fun σ => by rw [sameVars_eq hbody A σ 1 (by simp)]; simp [GoModel.loop_HashCode.body, runEnv, upd])
     (fun _ _ _ => trivial)
     (fun σ v => by rw [eAfter, eAfter]; simp [GoModel.loop_HashCode.after, runRet, eval, upd])
-    hl
+    hl e
   rw [glue, ← runEnv_append A pre init ρ hpure]
   subst hA
   have := hashCode_fn_bridge (pre ++ init) body after hpre
@@ -260,8 +260,8 @@ theorem murmur32_full_bridge (pre init : List Stmt) (cond : Cond) (post body aft
     (hbody : sameVars [4, 5, 6, 1, 7, 3] body GoModel.loop_murmurHash.body = true)
     (hafter : normStmts after = normStmts GoModel.loop_murmurHash.after)
     (data : Bytes) (hw : WFB data) (seed : Nat) (hs : seed < 4294967296) (hl : data.length < 2147483648)
-    (ρ : Env) (h1 : ρ 1 = (data.length : Int)) (h2 : ρ 2 = (seed : Int)) :
-    callWhile (dataArrs data) pre init cond post body after (data.length / 4 + 1) ρ
+    (ρ : Env) (h1 : ρ 1 = (data.length : Int)) (h2 : ρ 2 = (seed : Int)) (e : Nat) :
+    callWhile (dataArrs data) pre init cond post body after (data.length / 4 + 1 + e) ρ
       = ((Murmur.murmur32 data seed : Nat) : Int) := by
   generalize hA : dataArrs data = A
   have eInit : ∀ σ, runEnv A σ init = runEnv A σ GoModel.loop_murmurHash.init := fun σ => (normStmts_eq hinit A σ).1
@@ -288,7 +288,7 @@ theorem murmur32_full_bridge (pre init : List Stmt) (cond : Cond) (post body aft
       simp only [upd, Nat.reduceEqDiff, if_false]
       rw [hb 7 (by simp), murmur32_body_frame A σ 7 (by decide)]; exact hI)
     (fun σ v => by rw [eAfter, eAfter]; exact murmur32_after_frame A σ v)
-    (by omega)
+    (by omega) e
   rw [glue, ← runEnv_append A pre init ρ hpure]
   subst hA
   have sv (x : Nat) (hx : x ∈ [4, 5, 6, 1, 7, 3]) : canonVar x body = canonVar x GoModel.loop_murmurHash.body := by
@@ -315,8 +315,8 @@ theorem murmur64_full_bridge (pre init : List Stmt) (cond : Cond) (post body aft
     (hbody : sameVars [4, 5, 6, 1, 7, 3] body GoModel.loop_murmurHashLong.body = true)
     (hafter : normStmts after = normStmts GoModel.loop_murmurHashLong.after)
     (data : Bytes) (hw : WFB data) (seed : Nat) (hs : seed < 4294967296) (hl : data.length < 2147483648)
-    (ρ : Env) (h1 : ρ 1 = (data.length : Int)) (h2 : ρ 2 = (seed : Int)) :
-    callWhile (dataArrs data) pre init cond post body after (data.length / 8 + 1) ρ
+    (ρ : Env) (h1 : ρ 1 = (data.length : Int)) (h2 : ρ 2 = (seed : Int)) (e : Nat) :
+    callWhile (dataArrs data) pre init cond post body after (data.length / 8 + 1 + e) ρ
       = ((Murmur.murmur64 data seed : Nat) : Int) := by
   generalize hA : dataArrs data = A
   have eInit : ∀ σ, runEnv A σ init = runEnv A σ GoModel.loop_murmurHashLong.init := fun σ => (normStmts_eq hinit A σ).1
@@ -343,7 +343,7 @@ theorem murmur64_full_bridge (pre init : List Stmt) (cond : Cond) (post body aft
       simp only [upd, Nat.reduceEqDiff, if_false]
       rw [hb 7 (by simp), murmur64_body_frame A σ 7 (by decide)]; exact hI)
     (fun σ v => by rw [eAfter, eAfter]; exact murmur64_after_frame A σ v)
-    (by omega)
+    (by omega) e
   rw [glue, ← runEnv_append A pre init ρ hpure]
   subst hA
   have hbody' : sameVars [4, 5, 6, 1] body GoModel.loop_murmurHashLong.body = true := by
